@@ -131,6 +131,18 @@ def sentences(ctx):
               'try:\n\tpass\nexcept (E, F) as e:\n\tpass', 'with a as (b, c):\n\tpass', 'for (a, b), c in d:\n\tpass', 'x = a[1:2, ::3]', 'x = (yield)', 'x: int', 'del a, b', 'assert a, b', 'global a', 'nonlocal a',
               'raise E from f', 'import a.b', 'from . import a', 'from a import (b, c)', 'lambda *a, **k: a', 'x = f(a for a in b)', 'x = [a for a in b if c if d]', 'x = {a: b for a, b in c}', 'x = a @ b', 'x = a // b', 'x = a ** -b']:
         yield s, ('extra', 0)
+    # number spellings: exponent forms without a decimal point, hex digits that look like exponents, separators, bare points
+    for lit in ['1e5', '2E3', '1e-3', '1E+2', '1.5e3', '1e0', '0x1e5', '0X1F', '0xe', '1_000', '1_0.0_1', '1_0e1_0', '.5', '5.', '5.e1', '.5e-1', '0', '00', '0.0', '1e5j' if False else '1.e5']:
+        yield f'x = {lit}', ('literal', 0)
+        yield f'b = f({lit}, k={lit})', ('literal', 0)
+        yield f'x = -{lit} + a[{lit}]', ('literal', 0)
+    # comprehensions: every placement of 0..2 conditions over 1..2 for-clauses, in list / set / dict / generator form
+    clauses = [('for a in b', ['', ' if a', ' if a if e']), ('for c in d', ['', ' if c', ' if c if a < c'])]
+    for i0 in clauses[0][1]:
+        tails = [clauses[0][0] + i0] + [clauses[0][0] + i0 + ' ' + clauses[1][0] + i1 for i1 in clauses[1][1]]
+        for tail in tails:
+            for form in ('[a {t}]', '{{a {t}}}', '{{a: a {t}}}', 'f(a {t})', '[(a, a) {t}]'):
+                yield 'y = ' + form.format(t=tail), ('comprehension', 0)
 
 
 def run(ctx):
